@@ -85,6 +85,10 @@ var c16Alphabet = []c16Cmd{
 	{"define", "expensive(K) :- cost(K, V), V > 2."},
 }
 
+// c16ReloadAlpha: a path set that can be live more than once (facts for an extensional predicate another file declares,
+// a file that defines nothing) with pops in between and after.
+var c16ReloadAlpha = []int{15, 16, 22, 21, 0}
+
 // c16LatticeAlpha: the commands around a lattice predicate and a file that can be loaded any number of times.
 var c16LatticeAlpha = []int{22, 23, 24, 25, 26, 0, 21}
 
@@ -255,6 +259,11 @@ func c16(r *rt.Run) {
 			lat = append(lat, alphabet[i])
 		}
 		run(lat, 7, false)
+		var rel []c16Cmd
+		for _, i := range c16ReloadAlpha {
+			rel = append(rel, alphabet[i])
+		}
+		run(rel, 8, false)
 	} else {
 		var small []c16Cmd
 		for _, i := range c16Small {
@@ -267,12 +276,17 @@ func c16(r *rt.Run) {
 			lat = append(lat, alphabet[i])
 		}
 		run(lat, 5, false)
+		var rel []c16Cmd
+		for _, i := range c16ReloadAlpha {
+			rel = append(rel, alphabet[i])
+		}
+		run(rel, 6, false)
 	}
 	_ = depth
 	_ = firsts
 	_ = jobs
 	os.RemoveAll(root)
-	r.Finish("every command history up to depth d over 27 commands (a sub-alphabet of 7 around a lattice predicate with a merge predicate whose rule improves facts of an earlier fragment, and a file that defines nothing and can be loaded repeatedly, to depth 5 (thorough 7); 11 defines incl. a temporal fact that extends a loaded extensional temporal predicate, 10 loads incl. two files for that predicate with overlapping intervals; incl. declarations, a rejected one, a redefinition and two that pass analysis and fail at evaluation, 8 loads incl. parse error, redefinition, evaluation error, temporal file, multi-file pathset; pop), each on a fresh interpreter; " +
+	r.Finish("every command history up to depth d over 27 commands (a sub-alphabet of 7 around a lattice predicate with a merge predicate whose rule improves facts of an earlier fragment, and a file that defines nothing and can be loaded repeatedly, to depth 5 (thorough 7), a sub-alphabet of 5 around a path set that is live more than once (a declaring file, a facts file for it, the empty file, a define, pop) to depth 6 (thorough 8); 11 defines incl. a temporal fact that extends a loaded extensional temporal predicate, 10 loads incl. two files for that predicate with overlapping intervals; incl. declarations, a rejected one, a redefinition and two that pass analysis and fail at evaluation, 8 loads incl. parse error, redefinition, evaluation error, temporal file, multi-file pathset; pop), each on a fresh interpreter; " +
 		"after every command: success/failure and the answers to 11 predicate queries are compared with a fresh interpreter that loads only the live fragments; states = distinct histories, non-trivial = histories with a pop or a failed command")
 }
 
